@@ -137,7 +137,29 @@ def run_one(ds, shared=None):
     return out
 
 
+def tie_probe(seed):
+    """Presentations that keep every tie where it is (an order-REVERSING renaming of the classes with the utility table re-indexed
+    accordingly; strictly increasing distance transforms whose range is negative) on a dataset WITH exactly tied distances between
+    differently labelled rows: the scores must not move at all.  (Row permutations are excluded: they legitimately change which of
+    two tied rows comes first, C01 allows any tie order.)"""
+    rng = random.Random(seed)
+    for _ in range(50):
+        ds = nn.rand_dataset(rng, max_rows=6, max_points=2, ties=True)
+        if len(set(ds["labels"])) >= 2 and ds["n_test"] <= 4 and nn.n_ties(ds) > 0:
+            break
+    else:
+        return
+    ds["refit_history"] = False
+    s0 = nn.run_neighbor(ds)
+    ren = dict(ds, labels=[-l for l in ds["labels"]], y_test=[-l for l in ds["y_test"]], U=[list(reversed(col)) for col in ds["U"]])
+    assert nn.run_neighbor(ren) == s0, "renaming the classes (order reversed) changed the scores of a dataset with tied distances"
+    for name, f in (("d - 10", lambda x: x - 10.0), ("-1 / d", lambda x: -1.0 / x), ("log d", lambda x: math.log(x))):
+        mono = dict(ds, D=[[f(x) for x in col] for col in ds["D"]])
+        assert nn.run_neighbor(mono) == s0, "the strictly increasing transform %s of the distances changed the scores" % name
+
+
 def run_impl(c):
+    tie_probe(c["seed"])
     # half of the real-utility cases run every presentation through ONE importance object (with an identity feature
     # pipeline), re-fitted for each presentation: nothing of an earlier fit may survive
     shared = {} if c.get("reuse") else None
